@@ -328,6 +328,54 @@ def run(ctx: Ctx) -> None:
                         ctx.violation("C15:many-shapes", "after several different input shapes the transformed module no longer "
                                       "quantises" + (" (it computes the untransformed function)" if plain else ""), key)
                         break
+        # ---------------- frozen parameters of the library's own layers: the transformed module trains exactly what the
+        #                  original trains (a frozen weight stays frozen, receives no gradient), with every format
+        import unit_scaling as uu_
+
+        class UNet(nn.Module):
+            def __init__(self) -> None:
+                super().__init__()
+                self.l1 = uu_.Linear(8, 12, bias=True)
+                self.l2 = uu_.Linear(12, 8)
+                self.norm = uu_.LayerNorm(8, elementwise_affine=True) if hasattr(uu_, "LayerNorm") else nn.Identity()
+
+            def forward(self, x):  # type: ignore[no-untyped-def]
+                return self.norm(self.l2(U.gelu(self.l1(x))))
+
+        def fresh_unet(frozen):  # type: ignore[no-untyped-def]
+            torch.manual_seed(17)
+            n_ = UNet()
+            for nm_, p_ in n_.named_parameters():
+                if nm_ in frozen:
+                    p_.requires_grad_(False)
+            return n_
+
+        lossless_ = FPFormat(8, 23, "nearest")
+        for frozen in (["l1.weight"], ["l2.weight", "l1.bias"], ["l1.weight", "l2.weight", "norm.weight"], []):
+            for fa_, fname_ in ((lossless_, "lossless"), (FPFormat(3, 2, "nearest"), "rn E3M2")):
+                key = {"path": "dynamo", "frozen": frozen, "formats": fname_, "module": "uu.Linear x2 + uu.LayerNorm"}
+                ctx.count(key, bucket="dynamo/frozen-parameters")
+                xs_ = [torch.randn(5, 8, generator=torch.Generator().manual_seed(3))]
+                got = None
+                with ctx.guard("C15:frozen", key):
+                    tq = simulate_format(fresh_unet(frozen), fa_, fa_)
+                    flags_ = {nm_: p_.requires_grad for nm_, p_ in tq.named_parameters()}
+                    got = grads_of(tq, xs_, 5)
+                if got is None:
+                    continue
+                ref_ = fresh_unet(frozen)
+                want = grads_of(ref_, xs_, 5)
+                wflags_ = {nm_: p_.requires_grad for nm_, p_ in ref_.named_parameters()}
+                if {k_.split(".", 1)[-1] if k_.startswith("_orig_mod.") else k_: v_ for k_, v_ in flags_.items()} != wflags_ or \
+                        any((got[2][a_] is None) != (want[2][b_] is None) for a_, b_ in zip(got[2], want[2])):
+                    ctx.violation("C15:frozen-parameters", "the transformed module does not train the same parameters as the "
+                                  "original (a frozen parameter became trainable / received a gradient, or the reverse)", key,
+                                  {"transformed": {k_: (v_, got[2][k_] is not None) for k_, v_ in flags_.items()}})
+                elif fname_ == "lossless":
+                    d0 = equal_runs(got, want)
+                    if d0:
+                        ctx.violation("C15:lossless", f"lossless format does not reproduce the original bit for bit ({d0})", key)
+
         # ---------------- which of (input, weight, bias) require grad must not matter: every gradient that exists is the
         #                  gradient of the hand-quantised computation (frozen weights, bias-only fine-tuning, plain data inputs)
         class LinF(nn.Module):
